@@ -7,6 +7,7 @@
 mod c01;
 mod c03;
 mod c08;
+mod c11;
 mod c17;
 mod driver;
 mod exec;
@@ -31,6 +32,7 @@ fn property(id: &str) -> Option<Box<dyn Property>> {
         "C01" => Box::new(c01::C01::new()),
         "C03" => Box::new(c03::C03::new()),
         "C08" => Box::new(c08::C08::new()),
+        "C11" => Box::new(c11::C11::new()),
         "C17" => Box::new(c17::C17::new()),
         _ => return None,
     })
@@ -76,6 +78,20 @@ fn real_main(args: &[String]) -> i32 {
             let code = conclude(p.as_ref(), tier, seed, res);
             remove_scratch();
             code
+        }
+        "show" => {
+            let tier = Tier::parse(&args[3]).expect("tier");
+            let case: u64 = args[4].parse().expect("case");
+            println!("{}", p.show(tier, case));
+            let mut acc = Acc::default();
+            std::panic::set_hook(Box::new(|_| {}));
+            p.run_case(tier, case, &mut acc);
+            for (c, (_, v)) in &acc.violations {
+                println!("VIOLATION {c}\n{}", serde_json::to_string_pretty(&v.witness).unwrap());
+            }
+            println!("outcomes: {:?}", acc.outcomes.keys().collect::<Vec<_>>());
+            println!("counters: {:?}", acc.counters);
+            0
         }
         "replay" => {
             let text = std::fs::read_to_string(&args[3]).expect("replay file");
